@@ -109,11 +109,11 @@ def static_matches(ts: TypeSpec, v, repo=None, exact=False) -> bool:
         if not isinstance(v, Arr) or v.rank != len(ts.dims):
             return False
         if ts.elem == "nreal":
-            if v.kind != "real":
+            if v.nanmask is None:
                 return False
         elif ts.elem == "int" and v.kind == "real":
             return False
-        if exact and ts.elem != v.kind and not (ts.elem == "nreal" and v.kind == "real"):
+        if exact and ts.elem != v.kind and not (ts.elem == "nreal"):
             return False
         if ts.elem == "bool" and v.kind != "bool":
             return False
